@@ -169,7 +169,7 @@ _p('C25', secs=(30, 480), runs=(100000, 10000000), mix=(4, 8),
 _p('C20', secs=(30, 480), runs=(100000, 10000000), mix=(4, 8),
     title='Sequence gaps are recovered with a conformant counterparty',
     technique='deterministic simulation with fault injection: one real session against an executable reference model of the FIX session layer (numbers/stores what it sends, replays with PossDup/OrigSendingTime and GapFills on ResendRequest, answers TestRequests, never violates the protocol) over the simulated socket; faults: disconnects during which the counterparty keeps sending (messages lost), reconnects with higher Logon numbers, session process restarts over the file store; liveness checked after a final fault-free stretch',
-    rule='one evaluation = one seeded history of 2-14 (thorough 2-30) ops: counterparty application/admin sends, session application sends, disconnect, link drop inside the counterparty's resend answer, new counterparty messages ahead of a resend answer or right after the logon exchange, reconnect (30% with a restart of the session process), silence; half of the histories end with a clean reconnect that is judged before any further traffic, then a final fault-free stretch with one more counterparty message; non-trivial = at least 2 counterparty application messages, one disconnect and one reconnect; distinct = distinct event-log hash',
+    rule='one evaluation = one seeded history of 2-14 (thorough 2-30) ops: counterparty application/admin sends, session application sends, disconnect, link drop inside the resend answer of the counterparty, new counterparty messages ahead of a resend answer or right after the logon exchange, reconnect (30% with a restart of the session process), silence; half of the histories end with a clean reconnect that is judged before any further traffic, then a final fault-free stretch with one more counterparty message; non-trivial = at least 2 counterparty application messages, one disconnect and one reconnect; distinct = distinct event-log hash',
     real=_SESS_REAL + ['Session::sequence_check / handle_logon / handle_sequence_reset / process numbering'], stub=['counterparty: reference model of the FIX session layer written for this check (harness/c20.cpp RefPeer), speaking through the independent codec', 'socket: SimSock', 'application: recording handle_application'],
     assumptions=_SESS_ASSUME + ['HeartBtInt 30 s and silences below 3 s: no supervision timeouts inside a run', 'attribution of a termination to a sequence reason is by elimination: the reference counterparty never logs out, never sends wrong CompIDs or times, so any termination while the link is up is one; the Logout text is recorded as corroboration'],
     level_text='seeded exploration of loss/reconnect histories; oracle: the session never ends while the link is up, every application message the counterparty numbered is delivered at least once by the end of the final fault-free stretch (bounded liveness), the session\'s expected number equals the counterparty\'s next number at the end',
